@@ -71,7 +71,7 @@ def fields_of(spec):
     for s in spec["sources"]:
         out[s["name"]] = s.get("field", "v0")
     for p in spec["plugins"]:
-        if p["type"] == "multi":
+        if p["type"] in ("multi", "mwindow"):
             out[p["name"] + "a"] = p.get("field_a", "v0")
             out[p["name"] + "b"] = p.get("field_b", "v0")
         else:
@@ -136,12 +136,15 @@ def kinds_of(spec):
     for p in spec["plugins"]:
         t = p["type"]
         n = p["name"]
-        if t in ("row", "window", "down", "exhaust", "loop"):
+        if t in ("row", "window", "down", "exhaust", "loop", "gather"):
             k[n] = k[p["deps"][0]]
         elif t in ("filter", "group"):
             k[n] = n
         elif t == "multi":
             k[n + "a"] = k[p["deps"][0]]
+            k[n + "b"] = n + "b"
+        elif t == "mwindow":
+            k[n + "a"] = n + "a"
             k[n + "b"] = n + "b"
         else:
             raise ValueError(t)
@@ -149,7 +152,7 @@ def kinds_of(spec):
 
 
 def provides_of(p):
-    return [p["name"] + "a", p["name"] + "b"] if p["type"] == "multi" else [p["name"]]
+    return [p["name"] + "a", p["name"] + "b"] if p["type"] in ("multi", "mwindow") else [p["name"]]
 
 
 def _maybe_fail(self, name, chunk_i_seen):
@@ -296,6 +299,23 @@ def make_classes(spec):
 
                 attrs.update(get_window_size=lambda self, _w=p.get("window", gap): _w, data_kind=name)
             attrs.update(provides=(name,), dtype=dtype_for(fn), compute=compute)
+        elif t == "mwindow":
+            # multi-output overlap-window plugin: <name>a = window result per input row (new kind),
+            # <name>b = the rows of <name>a with even value (another new kind)
+            base = strax.OverlapWindowPlugin
+            na, nb = name + "a", name + "b"
+            wl, wr = p["window"]
+
+            def compute(self, start, end, _f0=f0, _k=k0, _na=na, _nb=nb, _fa=F[na], _fb=F[nb],
+                        _wl=wl, _wr=wr, _rec=rec, **kw):
+                _rec(self, kw, start, end)
+                a = window_whole(_fa, _f0, kw[_k], _wl, _wr)
+                b = a[a[_fa] % 2 == 0]
+                return {_na: a, _nb: out_arr(_fb, b["time"], b["endtime"], b[_fa])}
+
+            attrs.update(provides=(na, nb), dtype={na: dtype_for(F[na]), nb: dtype_for(F[nb])},
+                         data_kind={na: kinds[na], nb: kinds[nb]}, compute=compute,
+                         get_window_size=lambda self, _w=(wl, wr): _w)
         elif t == "down":
             base = strax.DownChunkingPlugin
             pieces = p.get("pieces", 2)
@@ -321,6 +341,18 @@ def make_classes(spec):
                 yield self.chunk(start=lo, end=end, data=out[li:])
 
             attrs.update(provides=(name,), dtype=dtype_for(fn), data_kind=kinds[name], compute=compute)
+        elif t == "gather":
+            # consumer of several dependencies of the same or of different kinds (C08):
+            # output = rows of the first dependency's kind, v = sum of that kind's fields
+            fn = F[name]
+            first_kind_fields = tuple(F[d] for d in deps if kinds[d] == k0)
+
+            def compute(self, start, end, _fn=fn, _k=k0, _ff=first_kind_fields, _rec=rec, **kw):
+                _rec(self, kw, start, end)
+                a = kw[_k]
+                return out_arr(_fn, a["time"], a["endtime"], sum(a[f] for f in _ff))
+
+            attrs.update(provides=(name,), dtype=dtype_for(fn), data_kind=kinds[name], compute=compute)
         elif t == "exhaust":
             base = strax.ExhaustPlugin
             fn = F[name]
@@ -333,6 +365,16 @@ def make_classes(spec):
             attrs.update(provides=(name,), dtype=dtype_for(fn), data_kind=kinds[name], compute=compute)
         else:
             raise ValueError(t)
+        if t in ("window", "group", "mwindow"):
+            def iter_(self, iters, executor=None, _n=name, _base=base):
+                for r in _base.iter(self, iters, executor=executor):
+                    if isinstance(r, dict):
+                        _record({"p": _n, "emit": {k: [c.start, c.end, len(c)] for k, c in r.items()}})
+                    elif r is not None and hasattr(r, "start"):
+                        _record({"p": _n, "emit": {_n: [r.start, r.end, len(r)]}})
+                    yield r
+
+            attrs["iter"] = iter_
         cls = type(p.get("class_name", "P_" + name), (base,), attrs)
         cls = strax.takes_config(*opts)(cls)
         classes.append(cls)
